@@ -61,21 +61,27 @@ func (r rangeSpec) String() string {
 }
 
 var poolRanges = []rangeSpec{
-	{0, 1, true, 0, 1},                   // [0,1)
-	{1, 1, true, 1, 2},                   // [1,2)
-	{0, 2, true, 0, 2},                   // [0,2)
-	{maxOff - 1, 1, true, 3, 4},          // [max-1,max): the last lockable byte
-	{2, maxOff - 3, true, 2, 3},          // [2,max-1)
-	{2, maxOff, true, 2, 4},              // [2,EOF)
-	{1, maxOff, true, 1, 4},              // [1,EOF)
-	{1, maxOff - 1, true, 1, 4},          // [1,max): offset+length == max exactly, not an overflow
-	{0, maxOff - 1, true, 0, 3},          // [0,max-1)
-	{0, maxOff, true, 0, 4},              // whole file
-	{maxOff - 1, maxOff, true, 3, 4},     // [max-1,EOF)
-	{1, 0, false, 0, 0},                  // zero length: invalid
-	{2, maxOff - 1, false, 0, 0},         // offset+length overflows: invalid
+	{0, 1, true, 0, 1},                    // [0,1)
+	{1, 1, true, 1, 2},                    // [1,2)
+	{0, 2, true, 0, 2},                    // [0,2)
+	{maxOff - 1, 1, true, 3, 4},           // [max-1,max): the last lockable byte
+	{2, maxOff - 3, true, 2, 3},           // [2,max-1)
+	{2, maxOff, true, 2, 4},               // [2,EOF)
+	{1, maxOff, true, 1, 4},               // [1,EOF)
+	{1, maxOff - 1, true, 1, 4},           // [1,max): offset+length == max exactly, not an overflow
+	{0, maxOff - 1, true, 0, 3},           // [0,max-1)
+	{0, maxOff, true, 0, 4},               // whole file
+	{maxOff - 1, maxOff, true, 3, 4},      // [max-1,EOF)
+	{1, 0, false, 0, 0},                   // zero length: invalid
+	{2, maxOff - 1, false, 0, 0},          // offset+length overflows: invalid
 	{maxOff - 1, maxOff - 1, false, 0, 0}, // overflows by a lot (wraps to max-3 < offset): invalid
 }
+
+// lastByteRange is "from byte 2^64-1 to EOF": a legal NFSv4 request for one
+// byte that the [Start,End) representation (End <= 2^64-1) cannot express;
+// offsetLengthToStartEnd() turns it into the empty range [max,max). Only used
+// by the opt-in Seq "pool-last-byte" (see mc_test.go).
+var lastByteRange = rangeSpec{maxOff, maxOff, true, 4, 4}
 
 func nfsType(t lockType) nfsv4.NfsLockType4 {
 	if t == tExcl {
